@@ -175,7 +175,7 @@ Definition post_holds (o : outcome) (Q : post) : Prop :=
   | OutOfFuel => True
   end.
 
-Inductive kind := KInt | KFlt | KBool | KSc | KAny | KArr.
+Inductive kind := KInt | KFlt | KBool | KSc | KAny | KArr | KArr1.
 
 Definition same_shape (a b : arr) : Prop :=
   match a, b with
@@ -192,6 +192,7 @@ Definition kind_ok (k : kind) (vold vnew : value) : Prop :=
   | KSc => match vnew with Sc _ => True | _ => False end
   | KAny => True
   | KArr => match vold, vnew with Ar a, Ar b => same_shape a b | _, _ => False end
+  | KArr1 => match vnew with Ar (A1 _ _) => True | _ => False end
   end.
 
 Definition forall_kind (k : kind) (vold : value) (P : value -> Prop) : Prop :=
@@ -206,6 +207,7 @@ Definition forall_kind (k : kind) (vold : value) (P : value -> Prop) : Prop :=
             | Ar (A2 dt r c _) => forall d' : list sval, P (Ar (A2 dt r c d'))
             | _ => True
             end
+  | KArr1 => forall (dt : dtype) (d : list sval), P (Ar (A1 dt d))
   end.
 
 Lemma forall_kind_ok : forall k vold vnew P, forall_kind k vold P -> kind_ok k vold vnew -> P vnew.
@@ -220,6 +222,7 @@ Proof.
     destruct a, b; simpl in K; try contradiction.
     + destruct K as [-> K]. apply H; assumption.
     + destruct K as [-> [-> ->]]. apply H.
+  - destruct vnew as [| |[dt d|]]; try contradiction. apply H.
 Qed.
 
 Fixpoint find_kind (x : var) (mods : list (var * kind)) : option kind :=
@@ -422,7 +425,7 @@ Definition wp_leaf (c : stmt) (Q : post) (st : store) : Prop :=
   | SForRun _ _ _ _ _ => False
   | SBreak => brk Q st
   | SReturn rs => args_safe rs st /\ ret Q (argvals rs st)
-  | SSeq _ _ | SIf _ _ _ | SWhile _ _ _ | SFor _ _ _ _ _ => False
+  | SSeq _ _ | SIf _ _ _ _ | SWhile _ _ _ | SFor _ _ _ _ _ => False
   end.
 
 (* loops, parameterised by the wp of their body *)
@@ -460,12 +463,25 @@ Definition wp_for (W : post -> store -> Prop) (l : nat) (x : var) (lo hi : expr)
       end
 .
 
+(* conditional.  Without annotation: the usual rule (the continuation is duplicated in both
+   branches).  With [ALoop mods fact] at its label: a cut point after the statement, the branches
+   establish [fact] and the continuation is proved once, for any values of [mods] satisfying it. *)
+Definition wp_if (Wa Wb : post -> store -> Prop) (l : nat) (c : expr) (Q : post) (st : store) : Prop :=
+  match ann l with
+  | ALoop mods fact =>
+      let Q' := mkPost (fun s' => agree mods st s' /\ fact st s') (brk Q) (ret Q) in
+      esafe c st /\ (truthy (evalv c st) = true -> Wa Q' st)
+      /\ (truthy (evalv c st) = false -> Wb Q' st)
+      /\ havoc mods st (fun s => fact st s -> normal Q s)
+  | _ =>
+      esafe c st /\ (truthy (evalv c st) = true -> Wa Q st)
+      /\ (truthy (evalv c st) = false -> Wb Q st)
+  end.
+
 Fixpoint wp (c : stmt) (Q : post) (st : store) {struct c} : Prop :=
   match c with
   | SSeq a b => wp a (mkPost (fun st' => wp b Q st') (brk Q) (ret Q)) st
-  | SIf c a b =>
-      esafe c st /\ (truthy (evalv c st) = true -> wp a Q st)
-      /\ (truthy (evalv c st) = false -> wp b Q st)
+  | SIf l c a b => wp_if (wp a) (wp b) l c Q st
   | SWhile l c b => wp_while (wp b) l c Q st
   | SFor l x lo hi b => wp_for (wp b) l x lo hi Q st
   | _ => wp_leaf c Q st
@@ -474,15 +490,13 @@ Fixpoint wp (c : stmt) (Q : post) (st : store) {struct c} : Prop :=
 (* one-step unfolding lemmas used by the proof tactics (the goal never contains an expanded
    continuation: the rest of the program stays a folded [wp] on program syntax) *)
 Definition is_leaf (c : stmt) : bool :=
-  match c with SSeq _ _ | SIf _ _ _ | SWhile _ _ _ | SFor _ _ _ _ _ => false | _ => true end.
+  match c with SSeq _ _ | SIf _ _ _ _ | SWhile _ _ _ | SFor _ _ _ _ _ => false | _ => true end.
 Lemma wp_leaf_intro : forall c Q st, is_leaf c = true -> wp_leaf c Q st -> wp c Q st.
 Proof. intros c Q st L H. destruct c; try discriminate L; exact H. Qed.
 Lemma wp_seq_intro : forall a b Q st,
   wp a (mkPost (fun st' => wp b Q st') (brk Q) (ret Q)) st -> wp (SSeq a b) Q st.
 Proof. intros; assumption. Qed.
-Lemma wp_if_intro : forall c a b Q st,
-  esafe c st /\ (truthy (evalv c st) = true -> wp a Q st)
-  /\ (truthy (evalv c st) = false -> wp b Q st) -> wp (SIf c a b) Q st.
+Lemma wp_if_intro : forall l c a b Q st, wp_if (wp a) (wp b) l c Q st -> wp (SIf l c a b) Q st.
 Proof. intros; assumption. Qed.
 Lemma wp_while_intro : forall l c b Q st, wp_while (wp b) l c Q st -> wp (SWhile l c b) Q st.
 Proof. intros; assumption. Qed.
@@ -573,8 +587,18 @@ Proof.
     destruct (exec env f c1 st) as [s|s|rs|e|]; simpl in P; try exact P.
     exact (IHn f Hf _ _ _ P).
   - (* SIf *)
-    destruct H as [H1 [H2 H3]]. rewrite (esafe_sound _ _ H1).
-    destruct (truthy (evalv c1 st)) eqn:E; [exact (IHn f Hf _ _ _ (H2 eq_refl)) | exact (IHn f Hf _ _ _ (H3 eq_refl))].
+    unfold wp_if in H. destruct (ann l) as [mods fact| |].
+    + destruct H as [H1 [H2 [H3 H4]]]. rewrite (esafe_sound _ _ H1).
+      assert (J : forall o, post_holds o (mkPost (fun s' => agree mods st s' /\ fact st s') (brk Q) (ret Q)) ->
+                            post_holds o Q).
+      { intros [s|s|rs|e|] P; simpl in *; try exact P.
+        destruct P as [A F]. exact (havoc_agree _ _ _ H4 s A F). }
+      destruct (truthy (evalv c1 st)) eqn:E; apply J;
+        [exact (IHn f Hf _ _ _ (H2 eq_refl)) | exact (IHn f Hf _ _ _ (H3 eq_refl))].
+    + destruct H as [H1 [H2 H3]]. rewrite (esafe_sound _ _ H1).
+      destruct (truthy (evalv c1 st)) eqn:E; [exact (IHn f Hf _ _ _ (H2 eq_refl)) | exact (IHn f Hf _ _ _ (H3 eq_refl))].
+    + destruct H as [H1 [H2 H3]]. rewrite (esafe_sound _ _ H1).
+      destruct (truthy (evalv c1 st)) eqn:E; [exact (IHn f Hf _ _ _ (H2 eq_refl)) | exact (IHn f Hf _ _ _ (H3 eq_refl))].
   - (* SWhile *)
     unfold wp_while in H.
     destruct (ann l) as [mods fact| |] eqn:EA; try contradiction.
